@@ -1,2 +1,45 @@
-// Package c07: monitor for property C07 (see DESIGN.md section 2).
+// Package c07: replication reproduces exactly the primary's history, nothing else.
+//
+// L1 (l1.go, wire.go): store ↔ store. A generated primary history is exported and offered to a replica store by a
+// PRNG scheduler (concurrent, out-of-order, duplicated, retried, across restarts and precommit discarding), together
+// with structure-aware alterations of the exported bytes and non-extending exports.
+// L2 (l2.go): pkg/database synchronous replication with the harness as the network.
 package c07
+
+import (
+	"encoding/json"
+	"fmt"
+	"os"
+	"strings"
+	"time"
+
+	"verifharness/internal/fw"
+)
+
+func init() { fw.RegisterMonitor("C07", "exploration", Run) }
+
+func Run(c *fw.Ctx) {
+	c.Rule = "L1: PRNG store configurations (header v0/v1, embedded values on either side, truncated primary, external commit allowance, synced replica, skipIntegrityCheck, window) × PRNG delivery schedules of the primary's honest exports (concurrent batches in/out of order, gaps, duplicates, beyond-window, replica restarts quiescent/mid-flight, precommit discarding, a fork's diverging precommits) × structure-aware alterations of the wire bytes; an evaluation is one ReplicateTx outcome judged against the replica's frontier, one frontier/restart/discard check or one tx/key/proof compared at quiescence. L2: pkg/database primary with syncAcks=k and m replicas, harness-as-network; an evaluation is one acknowledged primary commit checked against the replicas' durable precommitted states, one replica-not-ahead check or one final comparison. distinct = level × delivery pattern × alteration class × outcome observed"
+	c.Assume("SHA-256 collision resistance; the primary's own headers and accumulated hashes are the reference")
+	c.Assume("values of txs exported after value-log truncation travel as digests: only digests are compared for them (ReadValue documents that a replicated truncated value is indistinguishable from an empty one)")
+	only := os.Getenv("VERIF_C07_ONLY")
+	if only == "" || strings.Contains(only, "l1") {
+		r := c.Rand("c07/l1/configs")
+		n := c.N(60, 2000)
+		ntx := 80
+		nalt := c.N(20000, 400000) / n
+		var cases [][]byte
+		for i := 0; i < n; i++ {
+			b, _ := json.Marshal(genL1(r, i, ntx, nalt))
+			if v := os.Getenv("VERIF_C07_CASE"); v != "" && v != fmt.Sprint(i) { // development aid
+				continue
+			}
+			cases = append(cases, b)
+		}
+		c.RunIsolated("c07-l1", cases, fw.CasesOpts{Workers: 14, CaseTimout: 10 * time.Minute})
+	}
+	if only == "" || strings.Contains(only, "l2") {
+		runL2All(c)
+	}
+	_ = fmt.Sprint
+}
